@@ -14,8 +14,8 @@
 //                                FileBasedTestbenchRecorder from a simulation process that applies
 //                                the stimuli of trace 0 and reads every output pin each cycle
 //   <outdir>/<id>.meta           the `meta` line of the half-period traces (always written)
-//   <outdir>/<id>.tbtrace        per SET/CHECK round of that simulation process: exact simulator time `t=` and time of the next simulator
-//                                event `next=` (fs, num/den) and the values it read; the k-th CHECK group of testbench.testvectors must lie,
+//   <outdir>/<id>.tbtrace        `timing start= step= gap=` (seconds, num/den: round k happens at start + k*step, the next simulator event
+//                                gap later) and per SET/CHECK round of that simulation process the values it read; the k-th CHECK group of testbench.testvectors must lie,
 //                                by its accumulated ADV time, in [t - 1 ps, next]  (time base of the recorder does not drift)
 //   <outdir>/<id>.htrace         HALF-PERIOD traces (own runner below): inputs change and outputs are sampled at T/4 + k*T/2,
 //                                i.e. between every two clock edges, so that the edge a register is clocked on is observable;
@@ -368,6 +368,8 @@ int main(int argc, char **argv) {
 					const auto &stim = tvLong ? longStim : tvHalf ? hstims[0] : stims[0];
 					auto *simp = &sim;
 					auto *tb = &tbtrace;
+					tbtrace << "timing start=" << tvStart.numerator() << "/" << tvStart.denominator() << " step=" << tvStep.numerator() << "/" << tvStep.denominator()
+					        << " gap=" << tvGap.numerator() << "/" << tvGap.denominator() << "\n";
 					sim.addSimulationProcess([=, &stim]() -> SimProcess {
 						co_await WaitFor(tvStart);
 						for (size_t cyc = 0; cyc < stim.size(); cyc++) {
@@ -375,8 +377,8 @@ int main(int argc, char **argv) {
 								setPin(*simp, pins.ins[i], i < stim[cyc].size() ? stim[cyc][i] : std::string());
 							co_await WaitFor(Seconds{0});
 							// exact simulator time of this round and of the next simulator event, in fs (num/den), for the time-base check
-							hlim::ClockRational now = (tvStart + tvStep * (uint64_t)cyc) * 1'000'000'000'000'000ull, nxt = now + tvGap * 1'000'000'000'000'000ull;
-							*tb << "cy " << cyc << " t=" << now.numerator() << "/" << now.denominator() << " next=" << nxt.numerator() << "/" << nxt.denominator() << " out";
+							// (round `cyc` happens at start + cyc*step, the next simulator event at + gap: see the `timing` line; computed exactly in python)
+							*tb << "cy " << cyc << " out";
 							for (auto *p : pins.outs) {
 								auto drv = p->getDriver(0);
 								if (drv.node == nullptr || p->getConnectionType().width == 0) { *tb << " e"; continue; }
